@@ -6,12 +6,14 @@ import BridgeVerif.Driver.Play
 import BridgeVerif.Driver.Notation
 import BridgeVerif.Driver.Hands
 import BridgeVerif.Driver.Msg
+import BridgeVerif.Driver.Session
 /-! The line-protocol driver: one op per line in, one canonical line out. -/
 namespace Bridge.Driver
 
 structure DState where
   auction : Option AState := none
   play : Option PlayMode := none
+  sess : XState := {}
 
 def scoreOps (t : List String) : Option String :=
   match t with
@@ -38,6 +40,9 @@ def step (s : DState) (line : String) : DState × String :=
     else if op.startsWith "A." then
       let (a, o) := auctionOps s.auction t
       ({ s with auction := a }, o)
+    else if op.startsWith "X." then
+      let (a, o) := sessionOps s.sess t
+      ({ s with sess := a }, o)
     else if op.startsWith "M." || op.startsWith "F." then
       (s, (msgOps t).getD "bad-op")
     else if op.startsWith "H." then
